@@ -11,7 +11,7 @@ TOPICS = [b"", b"a", b"ab", b"b", b"abc"]
 FIRSTS = [b"", b"a", b"ab", b"abc", b"b", b"ba"]
 SYMS = [("s", t) for t in TOPICS] + [("u", t) for t in TOPICS] + [("g", None), ("2", None)]
 RULE = ("PUB and XPUB with scripted SUB peers: ALL per-subscriber histories of length <= 3 (quick) / 4 (thorough) over {subscribe t, unsubscribe t : "
-        "t in '', a, ab, b, abc} + {garbage, two-frame message}, each followed by publishing the first frames '', a, ab, abc, b, ba; 2-3 subscribers with "
+        "t in '', a, ab, b, abc} + {garbage, two-frame message}, each followed by publishing the first frames '', a, ab, abc, b, ba (second frame 'payload') and the splits a|bc, ''|abc, ab|c, ''|b (matching is on the first frame only); 2-3 subscribers with "
         "independent seeded histories; compared at quiescence with a reference multiset-prefix oracle and with the extracted model; "
         "distinct = distinct (socket type, history); non-trivial = history with >= 2 events")
 
@@ -50,6 +50,9 @@ def scenario(sock, hists):
         ops += ["recv"] * (sum(len(h) for h in hists) + 1)
     for f in FIRSTS:
         ops.append("send %s;7061796c6f6164" % W.tok(f))
+    # only the FIRST frame is matched: later frames that would continue a topic must not count
+    for f, rest in ((b"a", b"bc"), (b"", b"abc"), (b"ab", b"c"), (b"", b"b")):
+        ops.append("send %s;%s" % (W.tok(f), W.tok(rest)))
     ops += ["wire " + c for c in names]
     return "sock %s / %s" % (sock, " / ".join(ops))
 
